@@ -1006,3 +1006,46 @@ def directional_derivative(P: PolyArr, x_cols: np.ndarray, v_cols: np.ndarray) -
   Mn = sps.csr_matrix((np.concatenate(vals), (np.concatenate(rows), np.concatenate(cols))), shape=(P.size, sp.ncols))
   Mn.sum_duplicates()
   return PolyArr(P.shape, Mn, sp)
+
+
+def atom_apply_normalised(kind: str, arg: PolyArr, extra=None) -> PolyArr:
+  """atom_apply with the elementary laws of exp / log / pow / relu applied first, so that arguments which differ only by
+  an additive constant (exp), a positive factor (relu, pow of an exponential, log of an exponential) map to the SAME atom:
+     exp(c + r)      = e^c * EXP(r)
+     log(c * EXP(r)) = log c + r                (c > 0)
+     (c * EXP(r))^k  = c^k * EXP(k r)           (c > 0)
+     relu(s * a)     = s * relu(a)              (s = largest coefficient magnitude > 0)
+  Used where two runs must agree under a change of units (C12)."""
+  sp = arg.sp
+  M = _csr(arg._aligned()); M.sum_duplicates()
+  n = M.shape[0]
+  exp_atoms = {a['col']: a for a in sp.atoms if a['kind'] == 'exp'}
+  parts = []
+  for i in range(n):
+    s, e = M.indptr[i], M.indptr[i + 1]
+    cols = M.indices[s:e]; vals = M.data[s:e]
+    nz = vals != 0
+    cols = cols[nz]; vals = vals[nz]
+    row = PolyArr((1,), M[i], sp)
+    if len(cols) == 0 or (len(cols) == 1 and cols[0] == 0):
+      parts.append(atom_apply(kind, row, extra)); continue
+    if kind == 'exp':
+      c0 = float(vals[cols == 0].sum()) if (cols == 0).any() else 0.0
+      rest = row.add(-c0) if c0 != 0.0 else row
+      parts.append(atom_apply('exp', rest).scale(math.exp(c0))); continue
+    if kind in ('log', 'pow') and len(cols) == 1 and cols[0] in exp_atoms and vals[0] > 0:
+      a = exp_atoms[cols[0]]
+      c = float(vals[0])
+      if kind == 'log':
+        parts.append(a['arg'].add(math.log(c)))
+      else:
+        parts.append(atom_apply('exp', a['arg'].scale(float(extra))).scale(c ** float(extra)))
+      # rebuild exp atoms index (a new exp atom may have been created)
+      exp_atoms = {a_['col']: a_ for a_ in sp.atoms if a_['kind'] == 'exp'}
+      continue
+    if kind == 'relu':
+      sc = float(np.abs(vals).max())
+      parts.append(atom_apply('relu', row.scale(1.0 / sc)).scale(sc)); continue
+    parts.append(atom_apply(kind, row, extra))
+  out = PolyArr.pool(parts, sp)
+  return out.reshape(arg.shape)
